@@ -369,3 +369,200 @@ class PySpec:
 
     def ex_Expr(self, n):
         self.ev(n.value)
+
+
+# ==============================================================================================================
+# statements with completions (Language Reference 7 and 8)
+# ==============================================================================================================
+class SBreak(Exception):
+    pass
+
+
+class SContinue(Exception):
+    pass
+
+
+class SReturn(Exception):
+    def __init__(self, value):
+        self.value = value
+
+
+class PyStmtSpec(PySpec):
+    """Compound statements.  A block is a list of child statements; an opaque child statement completes normally,
+    with break / continue / return v, or raises (induction hypothesis ExS)."""
+
+    def block(self, stmts):
+        for s in stmts:
+            self.ex(s)
+
+    def ex_OpaqueStmt(self, n):
+        kind, v = self.it.ExS(n)
+        if kind == "break":
+            raise SBreak()
+        if kind == "continue":
+            raise SContinue()
+        if kind == "return":
+            raise SReturn(v)
+
+    def ex_Pass(self, n):
+        pass
+
+    def ex_Break(self, n):
+        raise SBreak()
+
+    def ex_Continue(self, n):
+        raise SContinue()
+
+    def ex_Return(self, n):
+        raise SReturn(self.ev(n.value) if n.value is not None else None)
+
+    def ex_If(self, n):
+        if self.it.branch_truth(self.ev(n.test), "spec.if"):
+            self.block(n.body)
+        else:
+            self.block(n.orelse)
+
+    def ex_While(self, n):
+        it = self.it
+        k = 0
+        while True:
+            t = it.truth(self.ev(n.test))
+            if isinstance(t, bool):
+                cont = t
+            elif k >= it.LOOP_BOUND:
+                it.eng.assume(z3.Not(t))
+                cont = False
+            else:
+                cont = it.eng.branch(t, f"spec.while{k}")
+            if not cont:
+                self.block(n.orelse)  # break / continue here belong to an ENCLOSING loop: they propagate
+                return
+            k += 1
+            try:
+                self.block(n.body)
+            except SBreak:
+                return
+            except SContinue:
+                continue
+
+    def ex_For(self, n):
+        for item in self.it.iterate(self.ev(n.iter)):
+            self.assign(n.target, item)
+            try:
+                self.block(n.body)
+            except SBreak:
+                return
+            except SContinue:
+                continue
+        self.block(n.orelse)
+
+    def ex_Assert(self, n):
+        if not self.it.branch_truth(self.ev(n.test), "spec.assert"):
+            if n.msg is not None:
+                m = self.ev(n.msg)
+                raise Raised(ExcVal(EXC["AssertionError"], (m,)))
+            raise exc("AssertionError")
+
+    def ex_Raise(self, n):
+        it = self.it
+        if n.exc is None:
+            if not self.handling:
+                raise exc("RuntimeError", "No active exception to reraise")
+            raise Raised(self.handling[-1])
+        e = self.ev(n.exc)
+        t = it.obj(e)
+        if n.cause is not None:
+            c = self.ev(n.cause)
+            t = z3.Function("with_cause", ObjS, ObjS, ObjS)(t, it.obj(c))
+        raise Raised(OpaqueExc(t))
+
+    handling = ()
+
+    def ex_Try(self, n):
+        it = self.it
+        if not isinstance(self.handling, list):
+            self.handling = []
+        pending = None
+        try:
+            try:
+                self.block(n.body)
+            except Raised as r:
+                handled = False
+                for h in n.handlers:
+                    if h.type is None:
+                        match = True
+                    else:
+                        cls = self.ev(h.type)
+                        match = self.matches(r.exc, cls)
+                    if match:
+                        handled = True
+                        if h.name:
+                            self.store_name(h.name, r.exc)
+                        self.handling.append(r.exc)
+                        try:
+                            self.block(h.body)
+                        finally:
+                            self.handling.pop()
+                            if h.name:
+                                it.delitem(self.vars, h.name)
+                        break
+                if not handled:
+                    raise
+            else:
+                self.block(n.orelse)
+        except (Raised, SBreak, SContinue, SReturn) as sig:
+            pending = sig
+        if n.finalbody:
+            self.block(n.finalbody)  # a completion of the finally block replaces the pending one
+        if pending is not None:
+            raise pending
+
+    def matches(self, e, cls):
+        it = self.it
+        if isinstance(cls, tuple):
+            return any(self.matches(e, c) for c in cls)
+        return it.isinstance_(e, cls) if it.is_opaque(cls) else it.exc_matches(e, cls)
+
+    def ex_With(self, n):
+        self._with(n.items, n.body)
+
+    def _with(self, items, body):
+        """8.5: with A as a, B as b: BODY  ==  with A as a: with B as b: BODY"""
+        it = self.it
+        if not items:
+            self.block(body)
+            return
+        item = items[0]
+        mgr = self.ev(item.context_expr)
+        tp = z3.Function("type_of", ObjS, ObjS)(it.obj(mgr))
+        enter = it.prim("getattr.__enter__", [tp])
+        exit_ = it.prim("getattr.__exit__", [tp])
+        value = it.prim("call[.|]", [it.obj(enter), it.obj(mgr)])
+        try:
+            if item.optional_vars is not None:
+                self.assign(item.optional_vars, value)
+            self._with(items[1:], body)
+        except Raised as r:
+            et = it.exc_type_term(r.exc)
+            ev = it.exc_term(r.exc)
+            tb = z3.Function("traceback_of", ObjS, ObjS)(ev)
+            sup = it.prim("call[....|]", [it.obj(exit_), it.obj(mgr), et, ev, tb])
+            if it.branch_truth(sup, "spec.suppress"):
+                return
+            raise
+        except (SBreak, SContinue, SReturn):
+            it.prim("call[....|]", [it.obj(exit_), it.obj(mgr), it.obj(None), it.obj(None), it.obj(None)])
+            raise
+        it.prim("call[....|]", [it.obj(exit_), it.obj(mgr), it.obj(None), it.obj(None), it.obj(None)])
+
+    def completion(self, thunk):
+        """Run a statement; returns (kind, value)."""
+        try:
+            thunk()
+            return "normal", None
+        except SBreak:
+            return "break", None
+        except SContinue:
+            return "continue", None
+        except SReturn as r:
+            return "return", r.value
